@@ -5,7 +5,7 @@ ENTRY = {
     "streams": [
         {"name": "dutydb", "drive": "drive-dutydb", "model": "drv-dutydb",
          "reset_ops": ["new", "cfg"],
-         "n_quick": 20000, "seeds_quick": 2, "n_thorough": 100000, "seeds_thorough": 6},
+         "n_quick": 16000, "seeds_quick": 2, "n_thorough": 100000, "seeds_thorough": 6},
     ],
     "level_text": "Kernel-checked Lean theorems over all histories of Store / Await* / PubKeyByAttestation / cancel / expiry "
                   "operations (any keys, equal, conflicting and partially conflicting data sets, every map-iteration order of the "
